@@ -13,7 +13,7 @@ import os
 import abbr_gen
 import repeat_util as u
 from common import enc_str, VERIF
-from markup_util import enc_config, decode_expand, impl_expand, canon_cfg, NotModelled
+from markup_util import enc_config, decode_expand, decode_res, impl_expand, canon_cfg, classify_exc, NotModelled
 from props.c18 import impl_markup, decode_markup
 
 CONFIGS = [{'options': {'output.format': False}}, {}, {'syntax': 'xml'},
@@ -245,6 +245,37 @@ def run_tokens(ctx, model):
         ctx.cov['correspondence']['markup_tokenize_numbering'] = {'cases': len(wires), 'disagreements': dis}
 
 
+# ---------------------------------------------------------------- the converted tree (second observable)
+def impl_tree(abbr, cfg):
+    """Preorder (depth, name, repeat = (count, value, implicit) | None) of emmet.markup.parse's tree:
+    the repetition each copy is tagged with is part of what convert_count states."""
+    from emmet.config import Config
+    from emmet.markup import parse
+    try:
+        tree = parse(abbr, Config(copy.deepcopy(cfg)))
+    except Exception as e:  # noqa
+        return classify_exc(e)
+    out = []
+
+    def walk(n, d):
+        rp = n.repeat
+        out.append((d, n.name, None if rp is None else (rp.count, rp.value, bool(rp.implicit))))
+        for c in n.children:
+            walk(c, d + 1)
+    for c in tree.children:
+        walk(c, 0)
+    return ('ok', out)
+
+
+def decode_tree(w):
+    def entry(r):
+        d = r.int()
+        nm = r.opt(r.str)
+        rp = r.opt(lambda: (r.int(), r.int(), r.bool()))
+        return (d, nm, rp)
+    return decode_res(w, lambda r: r.list(lambda: entry(r)))
+
+
 # ---------------------------------------------------------------- run
 def run_cases(ctx, model, cases):
     impl = []
@@ -287,6 +318,25 @@ def run_cases(ctx, model, cases):
     c = ctx.cov['correspondence'].setdefault('markup_C02', {'cases': 0, 'disagreements': 0})
     c['cases'] += len(wires)
     c['disagreements'] += dis
+    # second observable on a slice of the same cases: the converted tree with its repetition tags
+    if model is not None and idx:
+        step = 1 if ctx.tier == 'quick' else 4
+        sel = idx[::step]
+        outs = model.run([[4] + wires[j][1:] for j in range(0, len(idx), step)])
+        tdis = 0
+        for k, w in zip(sel, outs):
+            c_ = cases[k]
+            it = impl_tree(c_.abbr, c_.cfg)
+            mt = decode_tree(w)
+            if it[0] == 'recursion':
+                continue
+            if it != mt:
+                tdis += 1
+                if tdis <= 3:
+                    ctx.say('DISAGREE C02 tree %r cfg=%s\n  impl  %r\n  model %r' % (c_.abbr, canon_cfg(c_.cfg), str(it)[:400], str(mt)[:400]))
+                    ctx.broken.append({'kind': 'correspondence', 'file': 'markup-C02-tree', 'input': c_.abbr,
+                                       'config': canon_cfg(c_.cfg), 'impl': repr(it)[:300], 'model': repr(mt)[:300]})
+        ctx.cov['correspondence']['markup_C02_tree'] = {'cases': len(sel), 'disagreements': tdis}
     return impl
 
 
